@@ -884,6 +884,10 @@ def repeat(a, repeats, axis=None):
         # nothing to repeat along an empty axis
         return a
 
+    if 0 in a.chunks[axis]:
+        # zero-length chunks would put a slab into several chunks
+        a = a.rechunk({axis: tuple(c for c in a.chunks[axis] if c)})
+
     cchunks = cached_cumsum(a.chunks[axis], initial_zero=True)
     slices = []
     for c_start, c_stop in sliding_window(2, cchunks):
